@@ -39,18 +39,24 @@ _U64 = 2**64
 
 BOUNDS = (
     "allocator: one step from ANY table of <=%d entries satisfying Inv (offsets/lengths/total/size unbounded ints, total < 2**64), "
-    "MAX_ALLOCS patched to %d; write: schema-message size, record-batch size, dict-path size, segment size unbounded non-negative ints" % (_CAP, _CAP)
+    "any size > 0, MAX_ALLOCS patched to %d; write: schema-message size, record-batch size, dictionary-message / dict-path size, segment size unbounded "
+    "non-negative ints; column type = any chain of <= 2 (quick) / 3 (thorough) wrappers {list-like, struct, extension} around a plain or dictionary type, "
+    "decided by the REAL _has_dictionary_columns / _type_contains_dictionary" % (_CAP, _CAP)
 )
 OUTSIDE = (
     "Arrow C++ framing itself (sizes enter as symbolic ints under the stated size model, validated against real pyarrow at import); "
     "POSIX shm / mmap; concurrent use of one segment by both peers (the protocol is lockstep); tables with more than 4 live entries "
-    "are covered only through the inductive argument (the loop body is the same code per entry); the near-capacity log warning"
+    "are covered only through the inductive argument (the loop body is the same code per entry); the near-capacity log warning; "
+    "allocate() with a non-positive size (the property speaks about positive sizes); union / run-end-encoded parents of a dictionary "
+    "(structurally 'k child fields', like struct); several dictionary columns in one schema; what allocate()/free() return beyond the offset"
 )
 ASSUMPTIONS = [
     "Inv (sorted, non-overlapping, inside [HEADER_SIZE, total], lengths > 0, count <= MAX_ALLOCS) holds initially: ShmAllocator.initialize writes count 0",
     "MAX_ALLOCS := 4 in the analysed copy of allocate(); header capacity of the memory model = 4 entries (real: 4094 entries, z3 task checks they fit the real header)",
     "Arrow size model: stream bytes = schema message S (written lazily before the first batch) + record batch message B == ipc.get_record_batch_size(batch) + 8 bytes EOS; "
-    "batch.schema.serialize().size == S; validated on concrete real-pyarrow batches at import",
+    "batch.schema.serialize().size == S; plus D > 0 bytes of dictionary messages between schema and batch message iff some column is, or nests at any depth "
+    "(list / struct / map / extension storage), a dictionary type; validated on concrete real-pyarrow batches (every quick-tier shape, 0 and 3 rows) at import",
+    "Arrow types := structure-only objects (num_fields / field(i).type / storage_type / is-dictionary flag), interface validated against real pyarrow types at import",
     "allocator contract used in (b) (justified by (a)): allocate(n) returns None or an offset with HEADER_SIZE <= off and off + n <= total",
     "functools.lru_cache objects called directly by allocate_and_write := plain-Python memo (hit = equal hash and ==); CrossHair itself bypasses lru_cache",
 ]
@@ -342,10 +348,12 @@ def _replay_alloc(args: dict) -> str | None:
     a._write_allocs(list(ents))
     if "size" in args:
         size = args["size"]
+        if size <= 0:
+            return None  # the property speaks about positive sizes only
         try:
             r = a.allocate(size)
         except ValueError:
-            return None if size <= 0 else "allocate raised ValueError for a positive size"
+            return "allocate raised ValueError for a positive size"
         new = a._read_allocs()
         fits = _fits(ents, total, size)
         if r is None:
@@ -359,8 +367,14 @@ def _replay_alloc(args: dict) -> str | None:
         for o, ln in ents:
             if r < o + ln and o < r + size:
                 return f"allocate({size}) returned block [{r},{r + size}) overlapping live entry ({o},{ln})"
-        if sorted(ents + [(r, size)]) != new:
-            return f"table after allocate is {new}, expected {sorted(ents + [(r, size)])}"
+        # the table is the old one plus ONE entry starting at r and covering at least `size` bytes
+        # (a recorded length above `size`, e.g. alignment rounding, is the allocator's business),
+        # still sorted, non-overlapping and inside the data region
+        added = [e for e in new if e not in ents]
+        if len(new) != len(ents) + 1 or [e for e in new if e in ents] != ents or len(added) != 1 or added[0][0] != r or added[0][1] < size:
+            return f"table after allocate({size}) -> {r} is {new}; expected {ents} plus one entry ({r}, >= {size})"
+        if not _inv_list(new, total):  # n < _CAP here, so the entry-count clause of Inv cannot be what fails
+            return f"table after allocate({size}) -> {r} is {new}: recorded entries are not sorted + disjoint + inside [{_HS},{total})"
         return None
     off = args["off"]
     hit = [e for e in ents if e[0] == off]
@@ -465,24 +479,45 @@ def _fits(ents: list[tuple[int, int]], total: int, size: int) -> bool:
     return total - prev >= size
 
 
+_SIG_CLASSES = (
+    ("full table", "entry-limit"),
+    ("overlapping", "overlap"),
+    ("outside the data region", "out-of-region"),
+    ("although a gap fits", "spurious-failure"),
+    ("although no gap fits", "spurious-success"),
+    ("raised", "raised"),
+    ("succeeded although no entry", "free-of-unallocated"),
+)
+
+
+def _sig_step(base: str, args: dict) -> str:
+    """Finding signature = base + the defect class the REAL replay reports (limit / overlap / spurious None / ...)."""
+    try:
+        text = _replay_alloc(dict(args)) or ""
+    except Exception:  # noqa: BLE001
+        text = ""
+    for needle, cls in _SIG_CLASSES:
+        if needle in text:
+            return base + ":" + cls
+    return base + ":table"
+
+
 @cond(q=60, t=240, stubs=_STUBS_A, encoded=[shm.ShmAllocator.allocate, shm.ShmAllocator._read_allocs, shm.ShmAllocator._write_allocs],
-      bound="any Inv table of <=4 entries, unbounded ints, total < 2**64, any size (incl. <= 0)", replay=_replay_alloc,
-      signature=lambda args, conc: "C28:allocate:step-breaks-invariant")
+      bound="any Inv table of <=4 entries, unbounded ints, total < 2**64, any size > 0", replay=_replay_alloc,
+      signature=lambda args, conc: _sig_step("C28:allocate:step-breaks-invariant", args))
 def allocate_step(n: int, total: int, o0: int, l0: int, o1: int, l1: int, o2: int, l2: int, o3: int, l3: int, g0: int, g1: int, size: int) -> bool:
     """
     pre: _inv(n, total, o0, l0, o1, l1, o2, l2, o3, l3)
     pre: 0 <= g0 < _U64 and 0 <= g1 < _U64
+    pre: size > 0
     post: _
     """
     a, mem, old = _mk(n, total, ((o0, l0), (o1, l1), (o2, l2), (o3, l3)), g0, g1)
     try:
         r = a.allocate(size)
-    except ValueError:
-        # documented: non-positive size; nothing may have been written
-        return size <= 0 and mem.stores == 0
+    except HarnessModelError:
+        raise
     except Exception:  # noqa: BLE001  (incl. _HeaderOverflow: table written past the header)
-        return False
-    if size <= 0:
         return False
     new = _table(mem)
     if new is None:
@@ -507,19 +542,21 @@ def allocate_step(n: int, total: int, o0: int, l0: int, o1: int, l1: int, o2: in
     for o, ln in old:
         if r < o + ln and o < r + size:
             return False
-    # the new table is the old one plus exactly (r, size), still satisfying Inv
+    # the new table is the old one plus ONE entry that starts at r and covers at least `size` bytes, still
+    # satisfying Inv (sorted, non-overlapping, in-region — judged on the RECORDED length, so an allocator
+    # that records a rounded-up length is fine as long as the rounded block is disjoint and in-region)
     if len(new) != len(old) + 1 or not _inv_list(new, total):
         return False
     k = 0
     for o, _ln in old:
         if o < r:
             k += 1
-    return _same(new[:k], old[:k]) and new[k][0] == r and new[k][1] == size and _same(new[k + 1 :], old[k:])
+    return _same(new[:k], old[:k]) and new[k][0] == r and new[k][1] >= size and _same(new[k + 1 :], old[k:])
 
 
 @cond(q=60, t=240, stubs=_STUBS_A, encoded=[shm.ShmAllocator.free, shm.ShmAllocator._read_allocs, shm.ShmAllocator._write_allocs],
       bound="any Inv table of <=4 entries, unbounded ints, total < 2**64, any offset", replay=_replay_alloc,
-      signature=lambda args, conc: "C28:free:step-breaks-invariant")
+      signature=lambda args, conc: _sig_step("C28:free:step-breaks-invariant", args))
 def free_step(n: int, total: int, o0: int, l0: int, o1: int, l1: int, o2: int, l2: int, o3: int, l3: int, g0: int, g1: int, off: int) -> bool:
     """
     pre: _inv(n, total, o0, l0, o1, l1, o2, l2, o3, l3)
@@ -537,10 +574,13 @@ def free_step(n: int, total: int, o0: int, l0: int, o1: int, l1: int, o2: int, l
     except ValueError:
         raised = True
         ret = None
+    except HarnessModelError:
+        raise
     except Exception:  # noqa: BLE001
         return False
     new = _table(mem)
-    if new is None or ret is not None:
+    del ret  # what free() returns is not part of the property
+    if new is None:
         return False
     if hit < 0:
         return raised and _same(new, old)
@@ -634,8 +674,125 @@ class _SegBuf:
         raise HarnessModelError(f"segment buffer model: {name}")
 
 
+def _unmodelled(what: str, name: str) -> Exception:
+    """Protocol probes (copy / pickle look up __deepcopy__, __setstate__, ...) get the ordinary AttributeError;
+    any real attribute outside the model is a HarnessModelError."""
+    if name.startswith("__") and name.endswith("__"):
+        return AttributeError(name)
+    return HarnessModelError(f"{what}: .{name} is not modelled")
+
+
+class _FakeField:
+    """Structure-only pa.Field: only its type matters."""
+
+    def __init__(self, t: "_FakeType") -> None:
+        self.type = t
+
+    def __getattr__(self, name: str) -> object:
+        raise _unmodelled("field model", name)
+
+
+class _FakeType:
+    """Structure-only Arrow DataType: child fields and the 'is a dictionary type' flag, nothing else.
+
+    Mirrors pyarrow's structural interface (validated against real pyarrow at import): ``num_fields`` /
+    ``field(i)`` for list-likes (1 child), structs (k children), maps (1 child: the entries struct);
+    0 children for primitives, dictionaries and extension types (those expose ``storage_type``)."""
+
+    def __init__(self, children: tuple = (), is_dict: bool = False, label: str = "plain") -> None:
+        self._children = tuple(_FakeField(c) for c in children)
+        self._is_dict = is_dict
+        self._label = label
+
+    @property
+    def num_fields(self) -> int:
+        return len(self._children)
+
+    def field(self, i: int) -> _FakeField:
+        if not (0 <= i < len(self._children)):
+            raise HarnessModelError("type model: field index out of range")
+        return self._children[i]
+
+    @property
+    def fields(self) -> list:
+        return list(self._children)
+
+    @property
+    def value_type(self) -> "_FakeType":
+        if self._label != "list":
+            raise HarnessModelError("type model: value_type of a non-list")
+        return self._children[0].type
+
+    def __getattr__(self, name: str) -> object:
+        raise _unmodelled("type model", name)
+
+
+class _FakeExtBase:
+    """Stands for pa.BaseExtensionType in isinstance tests."""
+
+
+class _FakeExt(_FakeType, _FakeExtBase):
+    def __init__(self, storage: _FakeType) -> None:
+        _FakeType.__init__(self, (), False, "ext")
+        self.storage_type = storage
+
+
+class _PaTypesNS:
+    @staticmethod
+    def is_dictionary(t: object) -> bool:
+        if not isinstance(t, _FakeType):
+            raise HarnessModelError("pa.types.is_dictionary on a non-model type")
+        return t._is_dict
+
+    @staticmethod
+    def is_nested(t: object) -> bool:
+        if not isinstance(t, _FakeType):
+            raise HarnessModelError("pa.types.is_nested on a non-model type")
+        return len(t._children) > 0
+
+    def __getattr__(self, name: str) -> object:
+        raise HarnessModelError(f"pa.types.{name} is not modelled")
+
+
+class _Counter:
+    """pa.MockOutputStream / pa.BufferOutputStream as a byte counter (size-abstract Arrow has no bytes)."""
+
+    def __init__(self) -> None:
+        self.n = 0
+        self.closed = False
+
+    def write(self, data: object) -> int:
+        if not isinstance(data, _FakeMV):
+            raise HarnessModelError("counting sink: write of a non-model buffer")
+        self.n += data.n
+        return data.n
+
+    def size(self) -> int:
+        return self.n
+
+    def tell(self) -> int:
+        return self.n
+
+    def getvalue(self) -> _FakeMV:
+        return _FakeMV(self.n)
+
+    def flush(self) -> None:
+        pass
+
+    def close(self) -> None:
+        self.closed = True
+
+    def __getattr__(self, name: str) -> object:
+        raise _unmodelled("counting sink", name)
+
+
 class _PaNS:
     Buffer = _FakeMV
+    BaseExtensionType = _FakeExtBase
+    ExtensionType = _FakeExtBase
+    MockOutputStream = _Counter
+    BufferOutputStream = _Counter
+    types = _PaTypesNS()
 
     def __getattr__(self, name: str) -> object:
         raise HarnessModelError(f"pa.{name} is not modelled")
@@ -658,10 +815,15 @@ class _FakeSchema:
     pa.Schema.__eq__/__hash__ ignore metadata, so two schemas may compare (and hash) equal and
     still serialize to different sizes.  Anything the code memoises per schema therefore shows."""
 
-    def __init__(self, msg_size: int, ident: int = 0) -> None:
+    def __init__(self, msg_size: int, ident: int = 0, types: tuple = (), emits_dict: bool = False) -> None:
         self._msg = msg_size
         self._ident = ident
         self._run = _RUN["n"]
+        self._fields = tuple(_FakeField(t) for t in (types or (_PLAIN,)))
+        # environment fact (Arrow's writer, validated at import): dictionary messages are emitted iff some
+        # field is, or nests at any depth, a dictionary type.  Known BY CONSTRUCTION of the type tree
+        # (_SHAPES), never computed by walking it.
+        self._emits_dict = emits_dict
 
     def __eq__(self, other: object) -> bool:
         if not isinstance(other, _FakeSchema):
@@ -681,8 +843,66 @@ class _FakeSchema:
     def serialize(self) -> _FakeMV:
         return _FakeMV(self._msg)
 
-    def __iter__(self):  # fields: not needed (dictionary test is stubbed)
-        raise HarnessModelError("schema iteration is stubbed via _has_dictionary_columns")
+    def __iter__(self):  # type: ignore[no-untyped-def]
+        return iter(self._fields)
+
+    def __len__(self) -> int:
+        return len(self._fields)
+
+    def field(self, i: int) -> _FakeField:
+        if not (isinstance(i, int) and 0 <= i < len(self._fields)):
+            raise HarnessModelError("schema model: field() by name / out of range")
+        return self._fields[i]
+
+    @property
+    def types(self) -> list:
+        return [f.type for f in self._fields]
+
+    def __getattr__(self, name: str) -> object:
+        raise _unmodelled("schema model", name)
+
+
+_PLAIN = _FakeType()
+
+# wrapper kinds around the innermost type of the ONE interesting column (outside in)
+_WRAPPERS = ("list", "struct-first", "struct-second", "ext")
+_MAX_DEPTH = pick(2, 3)
+
+
+def _wrap(kind: str, inner: _FakeType) -> _FakeType:
+    if kind == "list":  # list / large_list / fixed_size_list / map (map<k, v> = list<struct<k, v>> structurally)
+        return _FakeType((inner,), False, "list")
+    if kind == "struct-first":
+        return _FakeType((inner, _FakeType()), False, "struct")
+    if kind == "struct-second":
+        return _FakeType((_FakeType(), inner), False, "struct")
+    return _FakeExt(inner)
+
+
+def _all_shapes() -> list[tuple[tuple[str, ...], bool, _FakeType]]:
+    """Every chain of <= _MAX_DEPTH wrappers around a plain or a dictionary innermost type.
+
+    Entry = (wrappers outside-in, innermost is a dictionary, type object).  'Some type in the tree is a
+    dictionary' is the second component by construction (all other leaves are plain)."""
+    chains: list[tuple[str, ...]] = [()]
+    frontier: list[tuple[str, ...]] = [()]
+    for _ in range(_MAX_DEPTH):
+        # an extension type whose storage is again an extension type is not a shape Arrow IPC supports
+        # (pyarrow writes a stream it cannot read back): not in the domain
+        frontier = [c + (w,) for c in frontier for w in _WRAPPERS if not (w == "ext" and c and c[-1] == "ext")]
+        chains += frontier
+    out = []
+    for chain in chains:
+        for leaf_dict in (False, True):
+            t = _FakeType((), leaf_dict, "dict" if leaf_dict else "plain")
+            for w in reversed(chain):
+                t = _wrap(w, t)
+            out.append((chain, leaf_dict, t))
+    return out
+
+
+_SHAPES = _all_shapes()
+_N_SHAPES = len(_SHAPES)
 
 
 class _FakeBatch:
@@ -708,7 +928,9 @@ _SPLIT = {"m": 0}
 class _Writer:
     """Size model of RecordBatchStreamWriter: schema message lazily, batch message, 8-byte EOS."""
 
-    def __init__(self, sink: _Sink, schema: _FakeSchema) -> None:
+    def __init__(self, sink: object, schema: _FakeSchema) -> None:
+        if not isinstance(schema, _FakeSchema):
+            raise HarnessModelError("writer model: opened on a non-model schema")
         self.sink, self.schema, self.started = sink, schema, False
 
     def _start(self) -> None:
@@ -717,15 +939,32 @@ class _Writer:
             self.sink.write(_FakeMV(self.schema._msg))
 
     def write_batch(self, batch: _FakeBatch) -> None:
+        if not isinstance(batch, _FakeBatch) or batch.schema is not self.schema:
+            raise HarnessModelError("writer model: batch of another schema object")
         self._start()
+        if self.schema._emits_dict:
+            # dictionary messages (D > 0 bytes, one per dictionary incl. nested ones) precede the batch message
+            self.sink.write(_FakeMV(batch.dict_size))
         m = _SPLIT["m"]  # metadata part / body part (symbolic split)
         self.sink.write(_FakeMV(m))
         self.sink.write(_FakeMV(batch.rb_size - m))
 
     def close(self) -> None:
+        if self.__dict__.get("closed"):
+            return
+        self.closed = True
         self._start()
         self.sink.write(_FakeMV(4))
         self.sink.write(_FakeMV(4))
+
+    def __enter__(self) -> "_Writer":
+        return self
+
+    def __exit__(self, *exc: object) -> None:
+        self.close()
+
+    def __getattr__(self, name: str) -> object:
+        raise _unmodelled("writer model", name)
 
 
 _HOLD = {"ret_none": False, "off": 0}
@@ -795,6 +1034,61 @@ def _memo_models(fn, module) -> dict:  # type: ignore[no-untyped-def]
 
 _MEMOS = _memo_models(shm.ShmSegment.allocate_and_write, shm)
 
+_ENV_B = dict(
+    pa=_PaNS(),
+    ipc=_IpcNS(),
+    new_ipc_stream=lambda sink, schema, *a, **k: _Writer(sink, schema),
+    _ShmSink=_Sink,
+    _serialize_for_shm=lambda batch, *a, **k: _FakeMV(batch.dict_size),
+    memoryview=_fake_memoryview,
+    **_MEMOS,
+)
+
+
+def _real_helpers(root, module, env: dict) -> dict:  # type: ignore[no-untyped-def]
+    """The module's own plain-Python helper functions that *root* reaches (transitively, by global name),
+    as the SAME bytecode over one shared globals dict in which the environment names are the models.
+
+    This is what makes the dictionary decision REAL: whichever helpers allocate_and_write consults to
+    decide "does the writer emit dictionary messages for this schema" (_has_dictionary_columns,
+    _type_contains_dictionary, anything a refactor adds) run un-stubbed on the structural type model."""
+    import types as _types
+
+    def names_of(code) -> set:  # type: ignore[no-untyped-def]
+        out = set(code.co_names)
+        for c in code.co_consts:
+            if isinstance(c, _types.CodeType):
+                out |= names_of(c)
+        return out
+
+    g = dict(module.__dict__)
+    g.update(env)
+    found: dict = {}
+    todo = [root.__code__]
+    while todo:
+        for name in names_of(todo.pop()):
+            obj = module.__dict__.get(name)
+            if name in env or name in found or not isinstance(obj, _types.FunctionType) or obj.__module__ != module.__name__:
+                continue
+            new = _types.FunctionType(obj.__code__, g, obj.__name__, obj.__defaults__, obj.__closure__)
+            new.__kwdefaults__ = obj.__kwdefaults__
+            found[name] = new
+            todo.append(obj.__code__)
+    g.update(found)
+    return found
+
+
+_HELPERS = _real_helpers(shm.ShmSegment.allocate_and_write, shm, _ENV_B)
+ENCODED += [getattr(shm, _n) for _n in sorted(_HELPERS)]
+
+
+def _referenced(fn, table: dict) -> dict:  # type: ignore[no-untyped-def]
+    names = set(fn.__code__.co_names)
+    for c in fn.__code__.co_consts:
+        if hasattr(c, "co_names"):
+            names |= set(c.co_names)
+    return {k: v for k, v in table.items() if k in names}
+
 
 class _Seg:
     __slots__ = ("_allocator", "_shm")
@@ -805,19 +1099,16 @@ class _Seg:
 
     allocate_and_write = reglobalize(
         shm.ShmSegment.allocate_and_write,
-        ipc=_IpcNS(),
-        new_ipc_stream=lambda sink, schema: _Writer(sink, schema),
-        _ShmSink=_Sink,
-        _has_dictionary_columns=lambda schema: _HOLD["dict"],
-        _serialize_for_shm=lambda batch: _FakeMV(batch.dict_size),
-        memoryview=_fake_memoryview,
-        **_MEMOS,
+        **_referenced(shm.ShmSegment.allocate_and_write, {**_ENV_B, **_HELPERS}),
     )
 
 
 _STUBS_B = [
-    "ipc.get_record_batch_size / new_ipc_stream writer := size-abstract Arrow (schema message S lazily, batch message == get_record_batch_size, EOS 8 bytes; symbolic chunking)",
-    "_serialize_for_shm := buffer of symbolic size D > 0; _has_dictionary_columns := symbolic bool",
+    "ipc.get_record_batch_size / new_ipc_stream writer := size-abstract Arrow (schema message S lazily, D > 0 bytes of dictionary messages iff a field is or nests a dictionary type, "
+    "batch message == get_record_batch_size, EOS 8 bytes; symbolic chunking); pa.MockOutputStream / BufferOutputStream := byte counter",
+    "pa.DataType / pa.Field / pa.Schema := structure-only objects (child fields, is-dictionary flag, extension storage_type); pa.types.is_dictionary reads the flag; "
+    "_has_dictionary_columns, _type_contains_dictionary and any other shm helper allocate_and_write reaches are the REAL bytecode over these objects",
+    "_serialize_for_shm := buffer of symbolic size D > 0",
     "segment memoryview := range recorder with memoryview's slice-clipping / length-mismatch ValueError",
     "allocator := contract 'None or in-region offset' (decided by allocate_step)",
     "pa.Buffer / memoryview := length-only objects",
@@ -835,60 +1126,138 @@ def _heavy_schema(nbytes: int, field_level: bool = False):
 def _replay_write(args: dict) -> str | None:
     """Real pyarrow, real POSIX segment, history 'plain, plain, free first, heavy': the heavy schema
     differs from the plain one only in metadata — field-level (schemas compare equal) and schema-level."""
-    if args.get("has_dict"):
-        return None
-    S = int(args.get("schema_msg2", args.get("schema_msg", 0)))
+    S = min(int(args.get("schema_msg2", args.get("schema_msg", 0))), 1 << 20)
+    rb = int(args.get("rb2", args.get("rb_size", 512)))
+    rows = max(1, min(rb // 8, 8192))  # the counterexample's batch-message size, in int64 rows
+    shape = args.get("shape")
+    chain, leaf_dict = (_SHAPES[shape][0], _SHAPES[shape][1]) if shape is not None and 0 <= shape < _N_SHAPES else ((), False)
+    dict_len = max(1, min(int(args.get("dict_size", 64)), 1 << 16))
     for field_level in (True, False):
-        got = _replay_write_one(S, field_level)
+        got = _replay_write_one(S, field_level, rows, chain, leaf_dict, bool(args.get("lead")), dict_len)
         if got:
-            return got + (" [heavy schema == plain schema under pa.Schema.__eq__: differs in field metadata only]" if field_level else "")
+            same_eq = field_level and not (chain or leaf_dict or args.get("lead"))
+            return got + (" [heavy schema == plain schema under pa.Schema.__eq__: differs in field metadata only]" if same_eq else "")
     return None
 
 
-def _replay_write_one(S: int, field_level: bool) -> str | None:
+_REAL_EXT: list = []
+
+
+def _real_ext_type(storage):  # type: ignore[no-untyped-def]
+    """A real (registered) pyarrow extension type over *storage* — the 'ext' wrapper of a shape."""
+    import pyarrow as pa
+
+    if not _REAL_EXT:
+
+        class HarnessExt(pa.ExtensionType):  # type: ignore[misc]
+            def __init__(self, st) -> None:  # type: ignore[no-untyped-def]
+                super().__init__(st, "harness.c28.ext")
+
+            def __arrow_ext_serialize__(self) -> bytes:
+                return b""
+
+            @classmethod
+            def __arrow_ext_deserialize__(cls, st, ser):  # type: ignore[no-untyped-def]
+                return cls(st)
+
+        try:
+            pa.register_extension_type(HarnessExt(pa.int64()))
+        except Exception:  # noqa: BLE001  (already registered in this process)
+            pass
+        _REAL_EXT.append(HarnessExt)
+    return _REAL_EXT[0](storage)
+
+
+def _real_column(chain: tuple, leaf_dict: bool, rows: int, dict_len: int):  # type: ignore[no-untyped-def]
+    """Real pyarrow array of *rows* rows whose type is the shape's wrapper chain around int64 / dictionary<int8,string>."""
+    import pyarrow as pa
+
+    if leaf_dict:
+        arr = pa.DictionaryArray.from_arrays(pa.array([i % 2 for i in range(rows)], type=pa.int8()), pa.array(["d" * dict_len, "e"]))
+    else:
+        arr = pa.array(list(range(rows)), type=pa.int64())
+    for w in reversed(chain):
+        if w == "list":
+            arr = pa.ListArray.from_arrays(pa.array(list(range(len(arr) + 1)), type=pa.int32()), arr)[: len(arr)]
+        elif w == "struct-first":
+            arr = pa.StructArray.from_arrays([arr, pa.array([0] * len(arr), type=pa.int32())], names=["x", "y"])
+        elif w == "struct-second":
+            arr = pa.StructArray.from_arrays([pa.array([0] * len(arr), type=pa.int32()), arr], names=["x", "y"])
+        else:
+            arr = pa.ExtensionArray.from_storage(_real_ext_type(arr.type), arr)
+    return arr
+
+
+def _replay_write_one(S: int, field_level: bool, nrows: int = 64, chain: tuple = (), leaf_dict: bool = False, lead: bool = False, dict_len: int = 64) -> str | None:
+    """History on a real POSIX segment with real pyarrow: plain, plain, free the first, then the
+    counterexample's batch (its column type = the shape, schema metadata of S bytes) — first fit puts it
+    into the freed slot directly in front of the live second batch."""
     import pyarrow as pa
 
     plain = pa.schema([pa.field("a", pa.int64())])
-    heavy = _heavy_schema(S, field_level)  # schema message >= S bytes
     rows = list(range(64))
     b_plain = pa.RecordBatch.from_pydict({"a": rows}, schema=plain)
-    b_heavy = pa.RecordBatch.from_pydict({"a": rows}, schema=heavy)
-    seg = shm.ShmSegment.create(_HS + 1024 * 1024)
+    if chain or leaf_dict or lead:
+        col = _real_column(chain, leaf_dict, nrows, dict_len)
+        meta = {b"doc": b"x" * max(0, S)}
+        fields = ([pa.field("lead", pa.int64())] if lead else []) + [pa.field("a", col.type, metadata=meta if field_level else None)]
+        heavy = pa.schema(fields, metadata=None if field_level else meta)
+        cols = ([pa.array(list(range(nrows)), type=pa.int64())] if lead else []) + [col]
+        b_heavy = pa.RecordBatch.from_arrays(cols, schema=heavy)
+    else:
+        heavy = _heavy_schema(S, field_level)  # schema message >= S bytes
+        b_heavy = pa.RecordBatch.from_pydict({"a": list(range(nrows))}, schema=heavy)
+    seg = shm.ShmSegment.create(_HS + 16 * 1024 * 1024)
     try:
-        r1 = seg.allocate_and_write(b_plain)
+        # dry run: how many bytes does the code reserve for this batch?  (then undo it)
+        # (a plain batch goes first and stays live, as in any session: whatever the code remembers per
+        # schema has then seen the plain schema before the counterexample's one)
+        if seg.allocate_and_write(b_plain) is None:
+            return None
+        r0 = seg.allocate_and_write(b_heavy)
+        if r0 is None:
+            return None
+        slot = dict(seg.allocator._read_allocs())[r0[0]]
+        seg.free(r0[0])
+        seg.buf[r0[0] : r0[0] + max(slot, r0[1]) + 4096] = bytes(max(slot, r0[1]) + 4096)
+        # a live region of exactly that size, a live plain batch right behind it, then free the first
+        o1 = seg.allocator.allocate(slot)
         r2 = seg.allocate_and_write(b_plain)
-        assert r1 is not None and r2 is not None
-        o1, _ = r1
+        if o1 is None or r2 is None:
+            return None
         o2, n2 = r2
-        before = bytes(seg.buf[o2 : o2 + n2])
         seg.free(o1)
-        r3 = seg.allocate_and_write(b_heavy)  # first fit: lands in the freed slot in front of batch 2
+        everything = bytes(seg.buf[_HS:])
+        r3 = seg.allocate_and_write(b_heavy)  # first fit: lands in the freed slot directly in front of batch 2
         if r3 is None:
             return None
         o3, n3 = r3
-        table = seg.allocator._read_allocs()
-        alloc_len = dict(table)[o3]
-        after = bytes(seg.buf[o2 : o2 + n2])
-        if n3 <= alloc_len and after == before:
+        alloc_len = dict(seg.allocator._read_allocs()).get(o3)
+        if alloc_len is None:
+            return f"allocate_and_write returned offset {o3}, which is not an entry of the allocation table"
+        now = bytes(seg.buf[_HS:])
+        lo, hi = o3 - _HS, o3 - _HS + alloc_len
+        outside_changed = now[:lo] != everything[:lo] or now[hi:] != everything[hi:]
+        neighbour_changed = now[o2 - _HS : o2 - _HS + n2] != everything[o2 - _HS : o2 - _HS + n2]
+        if n3 <= alloc_len and not outside_changed:
             # stayed inside: the reported (offset, length) must cover the stream that was written
             try:
                 ok = shm._deserialize_from_shm(seg.read_buffer(o3, n3), heavy).equals(b_heavy)
             except Exception:  # noqa: BLE001
                 ok = False
             return None if ok else f"allocate_and_write reported ({o3}, {n3}) but that range does not hold the written stream"
-        if n3 > alloc_len or after != before:
-            state = "unreadable"
-            try:
-                got = shm._deserialize_from_shm(seg.read_buffer(o2, n2), plain)
-                state = "equal" if got.equals(b_plain) else "different data"
-            except Exception as e:  # noqa: BLE001
-                state = f"unreadable ({type(e).__name__})"
-            return (
-                f"allocate_and_write wrote {n3} bytes at offset {o3} into an allocation of {alloc_len} bytes "
-                f"(schema message {heavy.serialize().size} bytes); the live neighbour at {o2} "
-                f"{'was overwritten' if after != before else 'was not touched'} and is now {state}"
-            )
-        return None
+        state = "unreadable"
+        try:
+            got = shm._deserialize_from_shm(seg.read_buffer(o2, n2), plain)
+            state = "equal" if got.equals(b_plain) else "different data"
+        except Exception as e:  # noqa: BLE001
+            state = f"unreadable ({type(e).__name__})"
+        return (
+            f"allocate_and_write wrote {n3} bytes at offset {o3} into an allocation of {alloc_len} bytes "
+            f"(column type {heavy.field(len(heavy) - 1).type}, schema message {heavy.serialize().size} bytes); bytes outside the allocation "
+            f"{'changed' if outside_changed else 'did not change'}; the live neighbour at {o2} "
+            f"{'was overwritten' if neighbour_changed else 'was not touched'} and is now {state}"
+        )
     finally:
         seg.close()
         seg.unlink()
@@ -928,28 +1297,107 @@ def _validate_arrow_model() -> None:
         w.close()
         if pre != 0 or rec.n != sch.serialize().size + ipc.get_record_batch_size(b) + 8:
             raise HarnessModelError(f"Arrow size model does not hold: wrote {rec.n}, model {sch.serialize().size}+{ipc.get_record_batch_size(b)}+8")
+    # dictionary part of the model, on every shape of the quick bound as REAL pyarrow types: the writer
+    # emits D > 0 extra bytes exactly when the shape's innermost type is a dictionary (also for 0 rows),
+    # pa.MockOutputStream counts what a sink receives, and the structural interface of the type model
+    # (num_fields / field(i).type / storage_type / is_dictionary) is the one real pyarrow types have
+    for chain, leaf_dict, fake in _SHAPES:
+        if len(chain) > 2:
+            continue
+        for rows in (0, 3):
+            col = _real_column(chain, leaf_dict, rows, 5)
+            sch = pa.schema([pa.field("x", col.type)])
+            b = pa.RecordBatch.from_arrays([col], schema=sch)
+            rec, mock = Rec(), pa.MockOutputStream()
+            for sink in (rec, mock):
+                w = new_ipc_stream(sink, sch)
+                w.write_batch(b)
+                w.close()
+            extra = rec.n - (sch.serialize().size + ipc.get_record_batch_size(b) + 8)
+            if mock.size() != rec.n or (extra > 0) != leaf_dict or extra < 0:
+                raise HarnessModelError(f"Arrow dictionary-message model does not hold for {col.type}: extra={extra}, mock={mock.size()}, sink={rec.n}")
+        real_t, fake_t = col.type, fake
+        while True:
+            if pa.types.is_dictionary(real_t) != _PaTypesNS.is_dictionary(fake_t) or isinstance(real_t, pa.BaseExtensionType) != isinstance(fake_t, _FakeExtBase):
+                raise HarnessModelError(f"type model disagrees with pyarrow on {real_t}")
+            if isinstance(real_t, pa.BaseExtensionType):
+                real_t, fake_t = real_t.storage_type, fake_t.storage_type
+                continue
+            if real_t.num_fields != fake_t.num_fields:
+                raise HarnessModelError(f"type model: num_fields of {real_t} is {real_t.num_fields}, model {fake_t.num_fields}")
+            if real_t.num_fields == 0:
+                break
+            # descend into the child that carries the chain (the other struct child is a plain leaf in both)
+            k = [i for i in range(real_t.num_fields) if fake_t.field(i).type.num_fields or fake_t.field(i).type._is_dict or isinstance(fake_t.field(i).type, _FakeExtBase)]
+            i = k[0] if k else real_t.num_fields - 1
+            real_t, fake_t = real_t.field(i).type, fake_t.field(i).type
+    # map<k, v> is list<struct<k, v>> structurally, as the type model assumes
+    mt = pa.map_(pa.string(), pa.int8())
+    if mt.num_fields != 1 or mt.field(0).type.num_fields != 2:
+        raise HarnessModelError("type model: map type is no longer list<struct<key, value>> structurally")
 
 
 _validate_arrow_model()
 
 
-@cond(q=60, t=180, stubs=_STUBS_B, encoded=[shm.ShmSegment.allocate_and_write, shm._ShmSink.write], replay=_replay_write,
-      bound="schema message, batch message, dict-path size, segment size, offset: unbounded ints within the size model",
-      signature=lambda args, conc: "C28:write:exceeds-allocation" + ("-dict" if args.get("has_dict") else ""))
-def write_within_allocation(total: int, off: int, ret_none: bool, has_dict: bool, schema_msg: int, rb_size: int, meta_part: int, dict_size: int) -> bool:
+def _sig_write(args: dict) -> str:
+    shape = args.get("shape", -1)
+    if not (0 <= shape < _N_SHAPES) or not _SHAPES[shape][1]:
+        return "C28:write:exceeds-allocation"
+    return "C28:write:exceeds-allocation" + ("-nested-dict" if _SHAPES[shape][0] else "-dict")
+
+
+_N_FLAT = 2  # _SHAPES[0], _SHAPES[1]: no wrapper, plain / dictionary column
+assert [s[0] for s in _SHAPES[:_N_FLAT + 1]][: _N_FLAT] == [(), ()] and _SHAPES[_N_FLAT][0] != ()
+
+_DEPTH_OF_ENCODED = [shm.ShmSegment.allocate_and_write, shm._ShmSink.write] + [getattr(shm, _n) for _n in sorted(_HELPERS)]
+
+
+@cond(q=60, t=180, stubs=_STUBS_B, encoded=_DEPTH_OF_ENCODED, replay=_replay_write,
+      bound="schema message, batch message, dict-path size, segment size, offset: unbounded ints within the size model; "
+            "schema = [optional plain column] + one plain or (top-level) dictionary column; allocator may refuse",
+      signature=lambda args, conc: _sig_write(args))
+def write_within_allocation(total: int, off: int, ret_none: bool, shape: int, lead: bool, schema_msg: int, rb_size: int, meta_part: int, dict_size: int) -> bool:
     """
     pre: _HS < total < _U64 and _HS <= off
     pre: schema_msg >= 8 and rb_size >= 8 and 0 <= meta_part <= rb_size and dict_size > 0
+    pre: 0 <= shape < _N_FLAT
     post: _
     """
+    return _write_ok(total, off, ret_none, shape, lead, schema_msg, rb_size, meta_part, dict_size)
+
+
+@cond(q=150, t=900, stubs=_STUBS_B, encoded=_DEPTH_OF_ENCODED, replay=_replay_write,
+      bound="schema message, batch message, dictionary-message size, segment size, offset: unbounded ints within the size model; "
+            "schema = [optional plain column] + one column whose type is ANY chain of 1..%d wrappers from {list-like (list / large_list / fixed_size_list / map), "
+            "struct (either position), extension} around a plain or a dictionary type (%d shapes; no extension directly over an extension)" % (_MAX_DEPTH, _N_SHAPES - _N_FLAT),
+      signature=lambda args, conc: _sig_write(args))
+def nested_column_write_within_allocation(total: int, off: int, shape: int, lead: bool, schema_msg: int, rb_size: int, meta_part: int, dict_size: int) -> bool:
+    """
+    pre: _HS < total < _U64 and _HS <= off
+    pre: schema_msg >= 8 and rb_size >= 8 and 0 <= meta_part <= rb_size and dict_size > 0
+    pre: _N_FLAT <= shape < _N_SHAPES
+    post: _
+    """
+    return _write_ok(total, off, False, shape, lead, schema_msg, rb_size, meta_part, dict_size)
+
+
+def _write_ok(total: int, off: int, ret_none: bool, shape: int, lead: bool, schema_msg: int, rb_size: int, meta_part: int, dict_size: int) -> bool:
+    """One allocate_and_write of a batch whose column type is _SHAPES[shape]: True iff every stored range lies
+    inside the range allocated for this batch and the reported (offset, length) covers what was stored."""
+    _RUN["n"] += 1
+    for m in _MEMOS.values():
+        m.cache_clear()
     _HOLD["ret_none"] = ret_none
     _HOLD["off"] = off
-    _HOLD["dict"] = has_dict
     _SPLIT["m"] = meta_part
     buf = _SegBuf(total)
     alloc = _AllocContract(total)
     seg = _Seg(alloc, buf)
-    batch = _FakeBatch(_FakeSchema(schema_msg), rb_size, has_dict, dict_size)
+    chain, leaf_dict, col_type = _SHAPES[shape]
+    types = (_PLAIN, col_type) if lead else (col_type,)
+    top_dict = leaf_dict and len(chain) == 0
+    batch = _FakeBatch(_FakeSchema(schema_msg, 0, types, emits_dict=leaf_dict), rb_size, top_dict, dict_size)
     try:
         res = seg.allocate_and_write(batch)
     except HarnessModelError:
@@ -997,7 +1445,6 @@ def second_write_within_allocation(total: int, off1: int, off2: int, same_identi
         m.cache_clear()
     _HOLD["ret_none"] = False
     _HOLD["offs"] = (off1, off2)
-    _HOLD["dict"] = False
     _SPLIT["m"] = meta_part
     try:
         buf = _SegBuf(total)
